@@ -573,7 +573,12 @@ impl Shared {
                 let mq = bc.max_qos[pick(self, bc.max_qos.len())];
                 let ka = bc.server_keepalive[pick(self, bc.server_keepalive.len())];
                 let id = bc.assigned_id[pick(self, bc.assigned_id.len())];
-                let props = broker::connack_props(rm, mp, mq, ka, id);
+                let mut props = broker::connack_props(rm, mp, mq, ka, id);
+                let extra = bc.connack_extras[pick(self, bc.connack_extras.len())];
+                if extra != 0 {
+                    self.log(|| format!("  (CONNACK dressed with further legal properties, set {})", extra));
+                }
+                props.extend(broker::connack_extras(extra));
                 let pkt = self.broker.connack(e, opts[i].0 != V::Fresh, props);
                 self.push_inbound(c, pkt);
             }
@@ -647,6 +652,10 @@ impl Shared {
             if n == 4 && fail >= 2 {
                 fail += 1;
             }
+        }
+        if self.explore() && self.cfg.broker.pubrel_forms && self.broker.is_pubrel(e) {
+            // 10 = short form, 11 = reason code 0x92, 12 = reason code 0 with an explicit (empty) property block
+            fail = 10 + self.ch.choose(K_VARIANT, 3, 0) as u8;
         }
         let pkt = self.broker.emit(e, fail);
         self.push_inbound(c, pkt);
